@@ -106,6 +106,17 @@ func recoverShape(c *core.Ctx) {
 			continue
 		}
 		n++
+		// The recovery frame may live in a first-party helper that receives the call of next as a thunk
+		// (`return i.guard(ctx, …, func() error { return next(ctx, conn) })`): then the closure must hand
+		// the helper's error result back unchanged on every non-bypass path, the thunk must call next once
+		// and return its error, and the helper's body is analysed as the frame with the thunk parameter as next.
+		if g, param, ok := recoverDelegate(c, key, closure, next); g != nil {
+			if !ok {
+				continue
+			}
+			closure = &ast.FuncLit{Type: g.Type, Body: g.Body}
+			next = param
+		}
 		// named error result of the closure
 		var namedErr types.Object
 		if closure.Type.Results != nil {
@@ -428,6 +439,133 @@ func recoverShape(c *core.Ctx) {
 		}
 	}
 	c.Floor("recover closures", n, 2)
+}
+
+// recoverDelegate looks for `G(…, func() error {… next(…) …}, …)` in the closure, G a first-party function or
+// method with a body. It returns G's declaration and the parameter of G bound to the thunk; ok is false when the
+// hand-over around G is not transparent (reported).
+func recoverDelegate(c *core.Ctx, key string, closure *ast.FuncLit, next types.Object) (*ast.FuncDecl, types.Object, bool) {
+	p := c.P
+	info := p.Connect.TypesInfo
+	errT := types.Universe.Lookup("error").Type()
+	isNext := func(call *ast.CallExpr) bool { return astx.ObjOf(info, call.Fun) == next }
+	var gcall *ast.CallExpr
+	var g *ast.FuncDecl
+	var thunk *ast.FuncLit
+	var param types.Object
+	for _, call := range astx.Calls(closure.Body) {
+		fn, _ := astx.Callee(info, call).(*types.Func)
+		if fn == nil || fn.Pkg() == nil || fn.Pkg().Path() != core.ConnectPath {
+			continue
+		}
+		fd := p.Decl(fn)
+		if fd == nil || fd.Body == nil {
+			continue
+		}
+		sig := fn.Type().(*types.Signature)
+		if sig.Variadic() || sig.Results().Len() != 1 || !types.Identical(sig.Results().At(0).Type(), errT) {
+			continue
+		}
+		for i, a := range call.Args {
+			lit, isLit := astx.Unparen(a).(*ast.FuncLit)
+			if !isLit || i >= sig.Params().Len() {
+				continue
+			}
+			callsNext := false
+			for _, inner := range astx.Calls(lit.Body) {
+				if isNext(inner) {
+					callsNext = true
+				}
+			}
+			if !callsNext {
+				continue
+			}
+			// the declaration's own parameter object (the signature's may differ after overlays)
+			var names []*ast.Ident
+			for _, f := range fd.Type.Params.List {
+				names = append(names, f.Names...)
+			}
+			if i >= len(names) {
+				continue
+			}
+			gcall, g, thunk, param = call, fd, lit, p.InfoAt(fd.Pos()).Defs[names[i]]
+		}
+	}
+	if g == nil || param == nil {
+		return nil, nil, false
+	}
+	var bad []string
+	// the thunk: one call of next on every path, whose error is what the thunk returns
+	tpaths, ttrunc := astx.ForEachExit(info, thunk.Body, func(s *astx.State, kind astx.ExitKind, ret *ast.ReturnStmt) {
+		if s.CountCalls(isNext) != 1 {
+			bad = append(bad, "the thunk does not call next exactly once on every path")
+			return
+		}
+		if ret == nil || len(ret.Results) != 1 {
+			bad = append(bad, "the thunk does not return an error value")
+			return
+		}
+		r := astx.Unparen(ret.Results[0])
+		if call, isCall := r.(*ast.CallExpr); isCall && isNext(call) {
+			return
+		}
+		obj := astx.ObjOf(info, r)
+		fromNext := false
+		for i := len(s.Steps) - 1; i >= 0 && obj != nil; i-- {
+			as, isAssign := s.Steps[i].(*ast.AssignStmt)
+			if !isAssign {
+				continue
+			}
+			last := as.Lhs[len(as.Lhs)-1]
+			written := false
+			for _, l := range as.Lhs {
+				if astx.ObjOf(info, l) == obj {
+					written = true
+				}
+			}
+			if !written {
+				continue
+			}
+			if call, isCall := astx.Unparen(as.Rhs[0]).(*ast.CallExpr); isCall && len(as.Rhs) == 1 && isNext(call) && astx.ObjOf(info, last) == obj {
+				fromNext = true
+			}
+			break
+		}
+		if !fromNext {
+			bad = append(bad, "the thunk returns `"+types.ExprString(r)+"`, not the error of next")
+		}
+	})
+	// the closure: bypass under IsClient, otherwise G's result is the returned error
+	cpaths, ctrunc := astx.ForEachExit(info, closure.Body, func(s *astx.State, kind astx.ExitKind, ret *ast.ReturnStmt) {
+		if s.CountCalls(isNext) > 0 {
+			if !s.HasFact(func(e ast.Expr, pol bool) bool { return pol && astx.IsFieldNamed(info, e, "IsClient") }) {
+				bad = append(bad, "next is called outside the recovery frame on a path not guarded by Spec().IsClient")
+			}
+			return
+		}
+		if s.CountCalls(func(call *ast.CallExpr) bool { return call == gcall }) != 1 {
+			bad = append(bad, "a path neither is the client bypass nor enters the recovery frame")
+			return
+		}
+		if ret == nil || len(ret.Results) == 0 {
+			bad = append(bad, "the closure does not return the frame's error")
+			return
+		}
+		r := astx.Unparen(ret.Results[len(ret.Results)-1])
+		if r == ast.Expr(gcall) {
+			return
+		}
+		if obj := astx.ObjOf(info, r); obj != nil && s.LastAssigned(info, obj) == ast.Expr(gcall) {
+			return
+		}
+		bad = append(bad, "the closure returns `"+types.ExprString(r)+"`, not the error result of the recovery frame")
+	})
+	if ttrunc || ctrunc || tpaths == 0 || cpaths == 0 {
+		c.Undecided(key+"/delegate-paths", closure.Pos(), "thunk paths=%d closure paths=%d truncated=%v", tpaths, cpaths, ttrunc || ctrunc)
+		return g, param, false
+	}
+	c.Check(len(bad) == 0, key+"/delegate", gcall.Pos(), "the recovery frame is %s: thunk calls next once and returns its error, the closure returns the frame's error%s", g.Name.Name, joinProblems(bad))
+	return g, param, len(bad) == 0
 }
 
 func retPos(ret *ast.ReturnStmt, lit *ast.FuncLit) token.Pos {
